@@ -216,14 +216,33 @@ def expected_data(t_before, ev):
     return have
 
 
-def fresh_equal_problems(t, data, td, tol):
+def vec_diff(va, vb):
+    """Distance between two log-likelihood vectors.  Below 1000 grid points: the largest entry-wise difference of the logs.
+    From 1000 grid points on the recursion convolves by FFT, whose error is absolute relative to the row's peak (C02's error
+    model: entries more than ~11 decades below the peak are not determined), so there the vectors are compared in linear
+    scale relative to the peak."""
+    va, vb = np.asarray(va, dtype=float), np.asarray(vb, dtype=float)
+    if va.shape[-1] < 1000:
+        return float(np.max(np.abs(va - vb)))
+    m = np.max(vb, axis=-1, keepdims=True)
+    # scaled so that the caller's 1e-9-level tolerance corresponds to 1e-6 of the peak: the FFT error (1e-11 of each
+    # convolution's own peak) is amplified by the cumulative sums and by the ratio of intermediate to final peaks
+    return float(np.max(np.abs(np.exp(va - m) - np.exp(vb - m)))) * 1e-3
+
+
+def fresh_equal_problems(t, data, td, tol, independent=False):
     """C06 invariant: every node's cached vectors and both joint densities equal those of a tree
-    freshly built with the same shape and assignment."""
+    freshly built with the same shape and assignment.  independent: the fresh tree is built on EMPTIED
+    memo tables, so that it cannot inherit a value the history under test left in them."""
     probs = []
     a = oracle.abstract(t)
     present = [d for d in data if d.idx in {x.idx for x in t.data}]
     if not present:
         return probs
+    if independent:
+        from mc import stationarity
+
+        stationarity.clear_caches(all_caches=True)
     f = oracle.build(a, data)
     if oracle.abstract(f) != a:
         return ["harness: fresh build does not reproduce the abstract state"]
@@ -240,13 +259,13 @@ def fresh_equal_problems(t, data, td, tol):
             continue
         for attr in ("log_p", "log_r"):
             va, vb = getattr(nt, attr), getattr(nf, attr)
-            if va.shape != vb.shape or not np.all(np.isfinite(va)) or float(np.max(np.abs(va - vb))) > tol:
-                probs.append("clone %r %s stale: max diff %.3e" % (sorted(b), attr, float(np.max(np.abs(va - vb))) if va.shape == vb.shape else -1))
+            if va.shape != vb.shape or not np.all(np.isfinite(va)) or vec_diff(va, vb) > tol:
+                probs.append("clone %r %s stale: max diff %.3e" % (sorted(b), attr, vec_diff(va, vb) if va.shape == vb.shape else -1))
     da, db = t.data_log_likelihood, f.data_log_likelihood
     # the virtual root's vector is only defined once the tree has a clone (an empty or outlier-only
     # tree carries whatever the constructor or the last update() left there; nothing reads it)
-    if len(byblock_t) > 0 and float(np.max(np.abs(da - db))) > tol:
-        probs.append("root likelihood vector stale: max diff %.3e" % float(np.max(np.abs(da - db))))
+    if len(byblock_t) > 0 and vec_diff(da, db) > tol:
+        probs.append("root likelihood vector stale: max diff %.3e" % vec_diff(da, db))
     for name in ("log_p", "log_p_one"):
         x, y = float(getattr(td, name)(t)), float(getattr(td, name)(f))
         if not abs(x - y) <= tol * 10:
